@@ -73,12 +73,15 @@ def _variant(spec, v):
   for l in s['links']:
     g = dict(l['geom'])
     g['collide'] = (v == 1)
+    if v == 1:
+      # collide with the ground plane only (links may overlap each other)
+      g['contype'], g['conaffinity'] = 0, 1
     l['geom'] = g
     if v != 2:
       l['range'] = [None] * len(l['range'])
   if v == 1:
     s['world_geoms'] = [dict(type='plane', size=[5, 5, 0.1], collide=True,
-                             pos=[0, 0, -6.0])]
+                             contype=1, conaffinity=0, pos=[0, 0, -6.0])]
   return s
 
 
@@ -283,16 +286,29 @@ def check_push(shape, pipe, tier, seed, res):
       res['nontrivial'] += 1
       res['transitions'] += 1
       res['states'] += 1
-      if dp[i][2] < -1e-12 or v[i][2] < -1e-12 or not np.isfinite(dp[i]).all():
+      # contribution of the contact: what the step did beyond free fall
+      gdt = r[0][2] * 0.002
+      dv = v[i][2] - gdt
+      dz = dp[i][2] - gdt * 0.002
+      if dz < -1e-12 or dv < -1e-12 or not np.isfinite(dp[i]).all():
+        tilted = shape != 'sphere' and not any(
+            np.allclose(np.abs(r[1][3:]), np.abs(c)) for c in
+            scope.cube_rotations())
+        key = 'C06:push-only:%s' % pipe
+        if pipe == 'positional' and tilted and dz >= -1e-12:
+          key += ':tilted-nonspherical-body-velocity'
         res['violations'].append(dict(
-            key='C06:push-only:%s' % pipe,
+            key=key,
             what='%s: %s penetrating %.0f mm (density %g, gravity %g, rot %s) '
-            'moved along the normal by %.3g with velocity %.3g (pulled in)' %
+            'was moved along the normal by %.3g and given velocity %.3g '
+            'relative to free fall (pulled in)' %
             (pipe, shape, r[3] * 1000, density, r[0][2],
-             np.round(r[1][3:], 3).tolist(), dp[i][2], v[i][2]),
+             np.round(r[1][3:], 3).tolist(), dz, dv),
             case=dict(kind='push', shape=shape, pipe=pipe, seed=seed,
                       tier=tier)))
-        return
+        if not key.endswith('velocity'):
+          return
+        break
   res['paths'] += 1
 
 
